@@ -64,7 +64,16 @@ VARIES = (
     "reconnection, requests ending in a manager stop after others were served, SIGTERM while an "
     "exchange is in flight, device chunk requests of every size in every relay, certificate "
     "headers that begin like the bytes around them, more than ten signatures, image paths "
-    "through symlinked directories, several onboardings in one process")
+    "through symlinked directories, several onboardings in one process, clients that half-close "
+    "or hang up while queued or while being served, brothers whose hashes share a prefix, the same "
+    "header twice in one request, optional members that are null / empty / zero, certificates whose "
+    "issuer names are not their certifiers' names, members naming a part of a signed message, a "
+    "device whose signer does not come up after the unlock of a reconnection, file names as long "
+    "as the file system allows, directories the manager's user cannot write to, heartbeat values "
+    "that are successive counters, tool runs that are turned down when their output file already "
+    "exists, objects used on after they refused an input, device queries failing with a status "
+    "word at every admin-tool step, images that are links to one another, repeated targets, "
+    "certificate chains ending in keys of other curves")
 
 IDEAS = (
     "a code path only reached through a rarely used command-line option, environment variable or "
